@@ -97,11 +97,14 @@ normalize(struct VideoFrame* acc, float inverse_norm)
 static int
 process_data(struct video_filter_s* self,
              struct VideoFrame** accumulator,
-             uint64_t* frame_count)
+             uint64_t* frame_count,
+             size_t* bytes_consumed)
 {
     struct VideoFrame* in = 0;
+    *bytes_consumed = 0;
     {
         struct slice slice = channel_read_map(&self->in, &self->reader);
+        *bytes_consumed = slice_size_bytes(&slice);
         struct frame_iterator it = frame_iterator_init(&slice);
         while ((in = frame_iterator_next(&it))) {
             if (!*accumulator) {
@@ -177,12 +180,17 @@ video_filter_thread(struct video_filter_s* self)
     LOG("[stream %d] PROCESSING: Entering frame processing thread",
         self->stream_id);
     struct throttler throttler = throttler_init(10e-3f);
+    size_t nbytes = 0;
     while (!self->is_stopping) {
-        CHECK(process_data(self, &accumulator, &frame_count));
+        CHECK(process_data(self, &accumulator, &frame_count, &nbytes));
         throttler_wait(&throttler);
     }
     LOG("[stream: %d] PROCESSING: Flush", self->stream_id);
-    CHECK(process_data(self, &accumulator, &frame_count));
+    // One pass only reads up to the end of the lap the reader is in: keep
+    // going until the input queue is drained, like the sink's final flush.
+    do {
+        CHECK(process_data(self, &accumulator, &frame_count, &nbytes));
+    } while (nbytes);
 Finalize:
     if (accumulator)
         channel_write_unmap(self->out);
